@@ -615,8 +615,11 @@ def _frame_type(F, c):
 
 
 def _frame_props(F, c):
-    kw = dict(has_insert_zone=c["iz"] is not None, has_fecf=c["fecf"] is not None, insert_zone_len=c["iz"], fecf_len=c["fecf"])
-    if c["ft"] == "fixed":
+    # a size may be configured for a field that is switched off (then it is irrelevant); the class of the managed-parameter object is
+    # the one belonging to the frame type unless "pc" says otherwise (the signature accepts either)
+    kw = dict(has_insert_zone=c["iz"] is not None, has_fecf=c["fecf"] is not None, insert_zone_len=c["iz"] if c["iz"] is not None else c.get("iz_off"),
+              fecf_len=c["fecf"] if c["fecf"] is not None else c.get("fecf_off"))
+    if c.get("pc", c["ft"]) == "fixed":
         return F.FixedFrameProperties(fixed_len=c["n"], **kw)
     return F.VarFrameProperties(truncated_frame_len=c["n"], **kw)
 
@@ -638,6 +641,10 @@ def _st_frame_valid():
         raw = ref_frame(c, hc, size - 1)
         cfg = {"ft": "fixed" if c["kind"] == "fixed" else "variable", "iz": None if c["insert_zone"] is None else len(c["insert_zone"]) // 2,
                "fecf": None if c["fecf"] is None else len(c["fecf"]) // 2, "n": len(raw)}
+        if c["insert_zone"] is None and len(raw) % 2:
+            cfg["iz_off"] = 4
+        if c["fecf"] is None and len(raw) % 3 == 0:
+            cfg["fecf_off"] = 2
         return {"cfg": cfg, "raw": _hx(raw), "kind": c["kind"]}
 
     return st_frame().map(mk)
@@ -650,7 +657,8 @@ def _obs_frame(f):
 
 
 _frame_cfg = lambda: st.fixed_dictionaries(  # noqa: E731
-    {"ft": st.sampled_from(["fixed", "variable"]), "iz": st.one_of(st.none(), st.integers(1, 8)), "fecf": st.one_of(st.none(), st.sampled_from([2, 4])), "n": st.integers(1, 80)}
+    {"ft": st.sampled_from(["fixed", "variable"]), "iz": st.one_of(st.none(), st.integers(1, 8)), "fecf": st.one_of(st.none(), st.sampled_from([2, 4])), "n": st.integers(1, 80),
+     "pc": st.sampled_from(["fixed", "variable"]), "iz_off": st.sampled_from([None, 4]), "fecf_off": st.sampled_from([None, 2])}
 )
 reg(Entry("TransferFrame.unpack", "uslp", _call_frame, _st_frame_valid, cfg=_frame_cfg, head=lambda r, c: min(len(r), 16), len_fields=lambda r, c: [(4, 2)], obs=_obs_frame,
           replen=lambda o, c: int(o.len())))
